@@ -23,11 +23,51 @@ SELF_TAG = 7777
 # sig = (P, npo, ndef, star, sstar, kwo)   kwo: string over 'r' (required) / 'o' (has default)
 
 
-def sig_params(sig, first=None):
+CLASS_OF = {"meth": "K", "cmeth": "D", "ccall": "E", "cinit": "G", "cstatic": "H", "cclassm": "J",
+            "pstatic": "L", "pclassm": "M", "pnested": "N", "cnested": "O"}
+# name shapes: source spelling of positional i / keyword-only j  (%(c)s = enclosing class name or X)
+SHAPES = {"plain": ("p%(i)d", "k%(i)d"), "priv": ("__q%(i)d", "__w%(i)d"), "dunder": ("__d%(i)d__", "__e%(i)d__"),
+          "under": ("_u%(i)d", "_v%(i)d"), "premangled": ("_%(c)s__m%(i)d", "_%(c)s__n%(i)d"),
+          "nonascii": ("\ufb01%(i)d", "\ufb02%(i)d")}                      # the ligatures fi / fl: NFKC -> "fi0", "fl0"
+SHAPE_BAG = ["plain"] * 6 + ["priv"] * 5 + ["dunder", "under", "premangled", "nonascii", "nonascii"]
+
+
+def caller_name(src, cls):
+    """the parameter name as callers see it (what CPython puts into co_varnames): NFKC normalisation of the
+    identifier, then class-private mangling inside a class body (directly or nested)"""
+    import unicodedata
+    v = unicodedata.normalize("NFKC", src)
+    if cls and v.startswith("__") and not v.endswith("__"):
+        v = "_" + cls.lstrip("_") + v
+    return v
+
+
+def param_names(n, ctxk, sig):
+    """-> dict: pos/kwo source spellings, visible (caller) names, class name; deterministic in (sig, ctxk)"""
+    import random
     P, npo, ndef, star, sstar, kwo = sig
+    cls = (CLASS_OF[ctxk] + str(n)) if ctxk in CLASS_OF else None
+    rnd = random.Random(repr((sig, ctxk)))
+    pos, kwn = [], []
+    for i in range(P):
+        sh = rnd.choice(SHAPE_BAG)
+        if ctxk == "cpdef" or (ctxk == "meth" and i == 0):
+            sh = "plain"
+        pos.append(SHAPES[sh][0] % {"i": i, "c": cls or "X"})
+    for j in range(len(kwo)):
+        sh = rnd.choice(SHAPE_BAG)
+        kwn.append(SHAPES[sh][1] % {"i": j, "c": cls or "X"})
+    return {"pos": pos, "kwo": kwn, "cls": cls,
+            "vpos": [caller_name(s, cls) for s in pos], "vkwo": [caller_name(s, cls) for s in kwn]}
+
+
+def sig_params(sig, first=None, names=None):
+    P, npo, ndef, star, sstar, kwo = sig
+    pos = names["pos"] if names else ["p%d" % i for i in range(P)]
+    kwn = names["kwo"] if names else ["k%d" % j for j in range(len(kwo))]
     parts = [first] if first else []
     for i in range(P):
-        parts.append("p%d" % i + ("=%d" % (900 + i) if i >= P - ndef else ""))
+        parts.append(pos[i] + ("=%d" % (900 + i) if i >= P - ndef else ""))
         if i == npo - 1:
             parts.append("/")
     if star:
@@ -35,20 +75,21 @@ def sig_params(sig, first=None):
     elif kwo:
         parts.append("*")
     for j, ch in enumerate(kwo):
-        parts.append("k%d" % j + ("=%d" % (950 + j) if ch == "o" else ""))
+        parts.append(kwn[j] + ("=%d" % (950 + j) if ch == "o" else ""))
     if sstar:
         parts.append("**kw")
     return ", ".join(parts)
 
 
-def sig_ret(sig, kwused=True):
+def sig_ret(sig, kwused=True, names=None):
     P, npo, ndef, star, sstar, kwo = sig
-    names = ["p%d" % i for i in range(P)] + ["k%d" % j for j in range(len(kwo))]
-    return "((%s), %s, %s)" % ("".join(n + ", " for n in names), "args" if star else "None",
+    nm = (names["pos"] + names["kwo"]) if names else ["p%d" % i for i in range(P)] + ["k%d" % j for j in range(len(kwo))]
+    return "((%s), %s, %s)" % ("".join(n + ", " for n in nm), "args" if star else "None",
                                "list(kw.items())" if (sstar and kwused) else "None")
 
 
-CTX_ALL = ("def", "lam", "clo", "meth", "cmeth", "ccall", "cinit", "cstatic", "cclassm", "cpdef")
+CTX_ALL = ("def", "lam", "clo", "meth", "cmeth", "ccall", "cinit", "cstatic", "cclassm", "cpdef",
+           "pstatic", "pclassm", "pnested", "cnested")
 
 
 def ctx_ok(ctxk, sig):
@@ -62,7 +103,8 @@ def ctx_ok(ctxk, sig):
 
 def entry_source(n, ctxk, sig, kwused):
     """(cython source, python twin source) of entry n"""
-    pr, rt = sig_params(sig), sig_ret(sig, kwused)
+    nm = param_names(n, ctxk, sig)
+    pr, rt = sig_params(sig, names=nm), sig_ret(sig, kwused, names=nm)
     if ctxk == "def":
         s = "def f%d(%s): return %s\n" % (n, pr, rt)
         return s, s
@@ -75,7 +117,19 @@ def entry_source(n, ctxk, sig, kwused):
     if ctxk == "meth":
         s = "class K%d:\n    def m(%s): return %s\n" % (n, pr, rt)
         return s, s
-    prs = sig_params(sig, "self")
+    if ctxk == "pstatic":
+        s = "class L%d:\n    @staticmethod\n    def sm(%s): return %s\n" % (n, pr, rt)
+        return s, s
+    if ctxk == "pclassm":
+        s = "class M%d:\n    @classmethod\n    def cm(%s): return %s\n" % (n, sig_params(sig, "cls", nm), rt)
+        return s, s
+    nested = "    def outer(self):\n        def inner(%s): return %s\n        return inner\n" % (pr, rt)
+    if ctxk == "pnested":
+        s = "class N%d:\n%s" % (n, nested)
+        return s, s
+    if ctxk == "cnested":
+        return "cdef class O%d:\n%s" % (n, nested), "class O%d:\n%s" % (n, nested)
+    prs = sig_params(sig, "self", nm)
     if ctxk == "cmeth":
         body = "    def m(%s): return %s\n" % (prs, rt)
         return "cdef class D%d:\n%s" % (n, body), "class D%d:\n%s" % (n, body)
@@ -89,7 +143,7 @@ def entry_source(n, ctxk, sig, kwused):
         body = "    @staticmethod\n    def sm(%s): return %s\n" % (pr, rt)
         return "cdef class H%d:\n%s" % (n, body), "class H%d:\n%s" % (n, body)
     if ctxk == "cclassm":
-        body = "    @classmethod\n    def cm(%s): return %s\n" % (sig_params(sig, "cls"), rt)
+        body = "    @classmethod\n    def cm(%s): return %s\n" % (sig_params(sig, "cls", nm), rt)
         return "cdef class J%d:\n%s" % (n, body), "class J%d:\n%s" % (n, body)
     if ctxk == "cpdef":
         return "cpdef h%d(%s): return %s\n" % (n, pr, rt), "def h%d(%s): return %s\n" % (n, pr, rt)
@@ -99,9 +153,10 @@ def entry_source(n, ctxk, sig, kwused):
 # build variants: name -> (directives, cflags, contexts allowed, vectorcall enabled)
 VARIANTS = {
     "default": ({}, [], CTX_ALL, True),
-    "nobinding": ({"binding": False}, [], ("def", "lam", "clo", "meth", "cmeth", "cpdef"), True),
+    "nobinding": ({"binding": False}, [], ("def", "lam", "clo", "meth", "cmeth", "cpdef", "pstatic", "pnested"), True),
     "noaak": ({"always_allow_keywords": False}, [], ("def", "lam", "meth", "cmeth", "cstatic", "cpdef"), True),
-    "novec": ({}, ["-DCYTHON_VECTORCALL=0"], ("def", "clo", "meth", "cmeth", "ccall", "cinit", "cclassm"), False),
+    "novec": ({}, ["-DCYTHON_VECTORCALL=0"], ("def", "clo", "meth", "cmeth", "ccall", "cinit", "cclassm",
+                                              "pstatic", "pclassm", "pnested", "cnested"), False),
     "o2": ({}, [], CTX_ALL, True),            # thorough tier only: gcc -O2 (undefined behaviour that -O0 hides)
 }
 VARIANT_OPT = {"o2": "-O2"}
@@ -117,7 +172,7 @@ def entry_cfg(variant, ctxk, sig, kwused):
     vec = vc and not special and not uses_args_tuple
     # analyse_signature rewrites the signature of a cdef-class staticmethod to the generic one ("*"): no METH_O/NOARGS shortcut
     aak = directives.get("always_allow_keywords", True) or ctxk == "cstatic"
-    cmethod = ctxk in ("cmeth", "ccall", "cinit", "cclassm")
+    cmethod = ctxk in ("cmeth", "ccall", "cinit", "cclassm", "pclassm")
     return "%d%d%d%d" % (vec, aak, kwused, cmethod)
 
 
@@ -147,7 +202,27 @@ def name_id(name):
         return 500 + int(name[1:])
     if name[0] == "n":
         return 600 + int(name[1:])
+    if name[0] == "q":                       # source spelling of positional i where callers see another name
+        return 700 + int(name[1:])
+    if name[0] == "r":                       # same for keyword-only j
+        return 800 + int(name[1:])
     raise ValueError(name)
+
+
+def token_strings(nm):
+    """token of the abstract call -> the string actually passed; p/k = the caller-visible name, q/r = the source spelling"""
+    m = {}
+    for i, (s, v) in enumerate(zip(nm["pos"], nm["vpos"])):
+        m["p%d" % i] = v
+        if s != v:
+            m["q%d" % i] = s
+    for j, (s, v) in enumerate(zip(nm["kwo"], nm["vkwo"])):
+        m["k%d" % j] = v
+        if s != v:
+            m["r%d" % j] = s
+    for u in ("u0", "u1", "u2", "n0", "n1"):
+        m[u] = u
+    return m
 
 
 def id_name(i):
@@ -239,11 +314,24 @@ def make_case(rng, sig, nargs, names, force_kind=None, nonstr=False):
     return {"args": args, "kws": kws, "how": how, "split": split}
 
 
-def gen_cases(rng, sig, count):
-    """systematic part + seeded random part for one function"""
+def gen_cases(rng, sig, count, alts=()):
+    """systematic part + seeded random part for one function; alts = tokens q<i>/r<j> (source spellings that differ
+    from the caller-visible name)"""
     P, npo, ndef, star, sstar, kwo = sig
     pos, kwn, req_kw, minpos = sig_facts(sig)
     out = []
+    for a in alts:                                # every parameter by keyword under BOTH spellings
+        vis = ("p" if a[0] == "q" else "k") + a[1:]
+        idx = int(a[1:]) if a[0] == "q" else P
+        rest = [r for r in req_kw if r != vis]
+        others = [p for p in pos[npo:minpos] if p != vis]
+        for kind in "ifs":
+            out.append(make_case(rng, sig, 0, [a] + others + rest, force_kind=kind))          # source spelling only
+            out.append(make_case(rng, sig, 0, [vis] + others + rest, force_kind=kind))        # visible spelling only
+            out.append(make_case(rng, sig, min(idx, P), [a] + rest, force_kind=kind))
+            out.append(make_case(rng, sig, min(idx, P), [vis, a] + rest, force_kind=kind))    # both
+            out.append(make_case(rng, sig, min(idx + 1, P), [a] + rest, force_kind=kind))     # positional + source spelling
+    count += len(out)
     # boundary: every positional count without keywords, every single keyword of every kind at two counts
     for nargs in range(P + 3):
         out.append(make_case(rng, sig, nargs, []))
@@ -255,6 +343,12 @@ def gen_cases(rng, sig, count):
     out.append(make_case(rng, sig, min(P, minpos), list(req_kw), nonstr=True))
     while len(out) < count:
         nargs, kws = valid_call(rng, sig)
+        if alts and rng.random() < 0.35:
+            a = rng.choice(list(alts))
+            vis = ("p" if a[0] == "q" else "k") + a[1:]
+            kws = [a if (k == vis and rng.random() < 0.6) else k for k in kws]
+            if a not in kws:
+                kws.insert(rng.randint(0, len(kws)), a)
         if rng.random() < 0.6:
             nargs, kws = mutate_call(rng, sig, nargs, kws)
             if rng.random() < 0.3:
@@ -273,7 +367,12 @@ def model_line(op, cfg, sig, ctxk, case):
     return "C24 %s %s %d %d %d %d %d %s %s %s" % (op, cfg, P, npo, ndef, star, sstar, kwo or "-", a, k)
 
 
-def render_outcome(sig, o):
+def _kid(nm, rev):
+    nm = (rev or {}).get(nm, nm)
+    return name_id(nm) if isinstance(nm, str) and nm[:1] in "pkunqr" and nm[1:].isdigit() else nm
+
+
+def render_outcome(sig, o, rev=None):
     """runner outcome -> the canonical line of the Lean model"""
     if "err" in o:
         return "err " + o["err"]
@@ -286,7 +385,7 @@ def render_outcome(sig, o):
         return "ok malformed %r" % (o["ok"],)
     s = ",".join("%d=%s" % (i, v) for i, v in zip(ids, vals)) or "-"
     s += "|*=" + ("none" if star is None else (",".join(str(v) for v in star) or "-"))
-    s += "|**=" + ("none" if kw is None else (",".join("%s.%s.%s" % (kd, name_id(nm) if isinstance(nm, str) and nm[:1] in "pkun" and nm[1:].isdigit() else nm, v) for kd, nm, v in kw) or "-"))
+    s += "|**=" + ("none" if kw is None else (",".join("%s.%s.%s" % (kd, _kid(nm, rev), v) for kd, nm, v in kw) or "-"))
     return "ok " + s
 
 
@@ -303,8 +402,7 @@ if job["kind"] == "so":
 else:
     mod = types.ModuleType(job["modname"])
     exec(compile(open(job["path"]).read(), job["path"], "exec"), mod.__dict__)
-NAMES = ["p%d" % i for i in range(8)] + ["k%d" % i for i in range(8)] + ["u%d" % i for i in range(4)]
-INTERNED = {n: sys.intern(n) for n in NAMES}
+INTERNED = {n: sys.intern(n) for n in job["strings"]}        # every string that may be a key exists interned
 class S(str):
     pass
 class M:                       # a mapping that is not a dict
@@ -337,6 +435,10 @@ def callee(n, ctxk, acc):
         K = g("K" if ctxk == "meth" else "D")
         inst = K()
         return (inst.m, [], None) if acc == "bound" else (K.m, [inst], None)
+    if ctxk == "pstatic": return (g("L")().sm if acc == "bound" else g("L").sm), [], None
+    if ctxk == "pclassm": return (g("M")().cm if acc == "bound" else g("M").cm), [], None
+    if ctxk == "pnested": return g("N")().outer(), [], None
+    if ctxk == "cnested": return g("O")().outer(), [], None
     if ctxk == "ccall": return g("E")(), [], None
     if ctxk == "cinit": return g("G"), [], "r"
     if ctxk == "cstatic": return (g("H")().sm if acc == "bound" else g("H").sm), [], None
@@ -484,7 +586,7 @@ def build_modules(ctx, plan, chunk=60):
 
 
 def accessors(rng, ctxk):
-    if ctxk in ("meth", "cmeth", "cstatic", "cclassm"):
+    if ctxk in ("meth", "cmeth", "cstatic", "cclassm", "pstatic", "pclassm"):
         return rng.choice(("bound", "unbound"))
     return None
 
@@ -502,7 +604,8 @@ def case_features(sig, case):
     given = set("p%d" % i for i in range(min(len(case["args"]), P)))
     dup = any(k[1] in given for k in case["kws"])
     unknown = any(k[1][0] in "un" for k in case["kws"])
-    return "kinds=%s%s%s" % (kinds, ",dup" if dup else "", ",unknown" if unknown else "")
+    alt = any(k[1][0] in "qr" for k in case["kws"])
+    return "kinds=%s%s%s%s" % (kinds, ",dup" if dup else "", ",unknown" if unknown else "", ",source-spelling" if alt else "")
 
 
 def short(x, n=300):
@@ -525,7 +628,9 @@ def evaluate(ctx, mods, cases_per_fn, exhaustive=False, record=True):
         meta = []            # (sig, ctxk, kwused, cfg)
         for n, sig, ctxk, kwused, extra in m["entries"]:
             cfg = entry_cfg(m["variant"], ctxk, sig, kwused)
-            cs = [] if m.get("fixed_only") else (exhaustive_cases(sig) if exhaustive else gen_cases(rng, sig, cases_per_fn))
+            tok = token_strings(param_names(n, ctxk, sig))
+            alts = sorted(k for k in tok if k[0] in "qr")
+            cs = [] if m.get("fixed_only") else (exhaustive_cases(sig, alts=alts) if exhaustive else gen_cases(rng, sig, cases_per_fn, alts))
             for ci, case in enumerate(list(extra) + cs):
                 case = dict(case)
                 if ctxk == "meth" and ci >= len(extra):
@@ -533,32 +638,45 @@ def evaluate(ctx, mods, cases_per_fn, exhaustive=False, record=True):
                     if case["split"]:
                         case["split"] = [min(case["split"][0], len(case["args"])), case["split"][1]]
                 acc = case.pop("acc", None) or accessors(rng, ctxk)
+                case["kws"] = [k for k in case["kws"] if k[1] in tok]          # a replayed alt spelling that does not exist here
+                if case["how"] == "direct" and not all(tok[k[1]].isascii() for k in case["kws"]):
+                    case["how"] = "star"         # the parser would NFKC-normalise a non-ASCII keyword written in source
                 cases.append([n, ctxk, acc, case])
-                meta.append((sig, ctxk, kwused, cfg))
-        job = {"modname": m["name"], "cases": cases}
+                meta.append((sig, ctxk, kwused, cfg, tok))
+        strings = set()
+        jcases = []
+        for (n, ctxk, acc, case), mt in zip(cases, meta):
+            tk = mt[4]
+            strings.update(tk.values())
+            jcases.append([n, ctxk, acc, dict(case, kws=[[kd, tk[nm], v] for kd, nm, v in case["kws"]])])
+        job = {"modname": m["name"], "cases": jcases, "strings": sorted(strings)}
         impl = run_job(ctx, dict(job, kind="so", path=m["so"]), m["name"] + "_so")
         orac = run_job(ctx, dict(job, kind="py", path=m["twin"]), m["name"] + "_py")
         lines = []
-        for (n, ctxk, acc, case), (sig, _, kwused, cfg) in zip(cases, meta):
+        for (n, ctxk, acc, case), (sig, _, kwused, cfg, _tk) in zip(cases, meta):
             if case["how"] == "predup":
                 continue
             lines.append(model_line("bind", cfg, sig, ctxk, case))
             lines.append(model_line("py", cfg, sig, ctxk, case))
         mout = iter(ctx.drv.batch(lines)) if lines else iter(())
-        for (n, ctxk, acc, case), (sig, _, kwused, cfg), io, oo in zip(cases, meta, impl, orac):
+        for (n, ctxk, acc, case), (sig, _, kwused, cfg, tk), io, oo in zip(cases, meta, impl, orac):
+            rev = {v: k for k, v in tk.items()}
+            nm = param_names(n, ctxk, sig)
             predup = case["how"] == "predup"
             mc, mp = (None, None) if predup else (next(mout), next(mout))
             if "skip" in io or "skip" in oo:
                 continue
-            ri, ro = render_outcome(sig, io), render_outcome(sig, oo)
+            ri, ro = render_outcome(sig, io, rev), render_outcome(sig, oo, rev)
             if predup:
                 mc, mp = ri, ro
-            replay = {"variant": m["variant"], "sig": list(sig), "ctxk": ctxk, "kwused": kwused, "acc": acc, "case": case}
+            replay = {"variant": m["variant"], "sig": list(sig), "ctxk": ctxk, "kwused": kwused, "acc": acc, "case": case,
+                      "def": short(sig_params(sig, names=nm), 200), "class": nm["cls"],
+                      "key_strings": {k[1]: tk.get(k[1]) for k in case["kws"]}}
             if record:
                 ctx.count("%s/%s/%s/%s" % (m["variant"], ctxk, case["how"], ro.split(" ")[0] + ("" if ro.startswith("ok") else "-" + ro.split(" ")[1])))
                 ctx.seen((m["variant"], ctxk, sig, kwused, acc, json.dumps(case, sort_keys=True)), nontrivial=bool(case["kws"]) or bool(case["args"]))
                 if ro.startswith("ok") and len(case["kws"]) >= 2:
-                    ctx.sample({"variant": m["variant"], "ctx": ctxk, "def": short(sig_params(sig), 80), "call": short(case, 200),
+                    ctx.sample({"variant": m["variant"], "ctx": ctxk, "def": short(sig_params(sig, names=nm), 80), "class": nm["cls"], "call": short(case, 200),
                                 "impl": short(ri, 120), "model": short(mc, 120), "oracle": short(ro, 120)})
             if ri != ro:
                 nv += 1
@@ -567,23 +685,23 @@ def evaluate(ctx, mods, cases_per_fn, exhaustive=False, record=True):
                 else:
                     key = "%s:%s:%s:impl-%s/oracle-%s:%s" % (m["variant"], ctxk, case["how"], ri.split(" ")[0], ro.split(" ")[0], case_features(sig, case))
                 ctx.violation(key, "def (%s) [%s, %s] call %s: compiled %s, CPython %s" % (
-                    short(sig_params(sig), 70), ctxk, m["variant"], short(case, 110), short(ri, 70), short(ro, 70)), replay)
+                    short(sig_params(sig, names=nm), 70), ctxk, m["variant"], short(case, 110), short(ri, 70), short(ro, 70)), replay)
             if mc != ri:
                 nt += 1
                 ctx.tie_break("D-c generated wrapper vs CyVerif.C24.cyBind", "def (%s) [%s, %s, cfg %s] call %s: model %s impl %s" % (
-                    short(sig_params(sig), 70), ctxk, m["variant"], cfg, short(case, 110), short(mc, 70), short(ri, 70)), replay)
+                    short(sig_params(sig, names=nm), 70), ctxk, m["variant"], cfg, short(case, 110), short(mc, 70), short(ri, 70)), replay)
             if mp != ro:
                 nt += 1
                 ctx.tie_break("CPython initialize_locals vs CyVerif.C24.pyBind", "def (%s) call %s: model %s CPython %s" % (
-                    short(sig_params(sig), 70), short(case, 130), short(mp, 80), short(ro, 80)), replay)
+                    short(sig_params(sig, names=nm), 70), short(case, 130), short(mp, 80), short(ro, 80)), replay)
     return nt, nv
 
 
-def exhaustive_cases(sig, maxkw=2):
+def exhaustive_cases(sig, maxkw=2, alts=()):
     """every positional count x every ordered keyword list of <= maxkw distinct names over all kinds (search around a disagreement)"""
     P, npo, ndef, star, sstar, kwo = sig
     pos, kwn, req_kw, minpos = sig_facts(sig)
-    names = pos + kwn + ["u0"]
+    names = pos + kwn + ["u0"] + list(alts)
     out = []
     for nargs in range(P + 3):
         for r in range(maxkw + 1):
@@ -642,8 +760,11 @@ def build_fixed(ctx, items, tag):
 
 def run(ctx):
     ctx.rule = ("functions generated from signatures (P<=3 positional incl. npo<=P positional-only and ndef<=P defaults, *args?, up to 3 "
-                "keyword-only each required/optional, **kw?; 24 boundary signatures + seeded sample of the 8640) in 10 contexts (def, lambda, "
-                "closure, Python-class method, cdef-class method / __call__ / __init__ / staticmethod / classmethod, cpdef) x 4 builds "
+                "keyword-only each required/optional, **kw?; 24 boundary signatures + seeded sample of the 8640) in 14 definition contexts (module-level "
+                "def, lambda, closure; Python-class method / staticmethod / classmethod / function nested in a method; cdef-class method / __call__ / "
+                "__init__ / staticmethod / classmethod / nested function; cpdef) with parameter NAME SHAPES drawn per parameter from ordinary, "
+                "class-private (__x), dunder (__x__), underscore, already-mangled-looking (_Cls__x) and non-ASCII (NFKC: fi-ligature -> fi) names; every "
+                "such parameter is passed by keyword under the caller-visible spelling (mangled / normalised) AND the source spelling; x 4 builds "
                 "(default, binding=False, always_allow_keywords=False, -DCYTHON_VECTORCALL=0; thorough: also gcc -O2); calls = systematic positional counts and "
                 "single keywords of each key kind + seeded valid calls and their mutations (drop, duplicate of a positional, unknown name, "
                 "+-positional, non-str key), delivered by keyword syntax, *seq/**dict, **custom mapping, *iterator, functools.partial, "
